@@ -19,7 +19,7 @@ def posixHost : Host State where
   opendir s p := s.opendir p
   openAt s p acc fl := s.open p acc fl
   writev s fd bufs := if bufs.length > IOV_MAX then (s, .err .EINVAL) else s.write fd bufs.flatten
-  readv s fd lens := if lens.length > IOV_MAX then (s, .err .EINVAL) else s.read fd lens.sum
+  readv s fd lens := if lens.length > IOV_MAX then (s, .err .EINVAL) else s.readv fd lens
   lseek s fd off w := s.lseek fd off w
   fstat s fd := s.fstat fd
   stat s p := s.stat p
